@@ -37,7 +37,7 @@ ASSUMPTIONS = [
     'case A oracle uses the position cells of the same result (a WHERE/FROM bug cannot raise a C12 alarm); case B aligns returned rows to the all-postings sequence by the scan index delivered by the harness function verif_rowno',
     'Inventory arithmetic (add_position, reduce) is beancount core and trusted',
 ]
-PROBES = ['same_transaction_object_twice', 'balance_only_as_later_operand', 'aggregate_over_balance_checked', 'equal_consecutive_postings', 'scan_between_balance_refs', 'balance_scan_between_balance_refs', 'nested_scan_died_halfway', 'other_connection_scan',
+PROBES = ['ordered_output_resorted', 'same_transaction_object_twice', 'balance_only_as_later_operand', 'aggregate_over_balance_checked', 'equal_consecutive_postings', 'scan_between_balance_refs', 'balance_scan_between_balance_refs', 'nested_scan_died_halfway', 'other_connection_scan',
           'where_consults_balance', 'from_clause_subject', 'lots_reduced_in_selection', 'in_subquery_touching_balance',
           'three_refs', 'nested_result_checked', 'rider_checked']
 
@@ -124,10 +124,15 @@ def generate(rng, tier, run):
         text += ' FROM ' + frm
     if conds:
         text += ' WHERE ' + ' AND '.join(conds)
+    order = rng.choice([None, None, None, 'account', 'number DESC', 'date DESC, account', 'currency, number'])
+    if order:
+        # the balance is defined in ledger order whatever the output order: the oracle re-sorts the
+        # returned rows by their scan index (verif_rowno) before checking
+        text += ' ORDER BY ' + order
     return {
         'world': {'ledger': ledger, 'other': other},
         'subject': {'text': text, 'refs': refs, 'caseB': caseB, 'from': frm, 'filter': flt,
-                    'where': ' AND '.join(conds) if conds else None,
+                    'where': ' AND '.join(conds) if conds else None, 'order': order,
                     'real_parse': rng.random() < 0.05},
         'nested': nested,
         'riders': rng.random() < 0.5,
@@ -319,6 +324,9 @@ def execute(case, keep_log=False):
             if 'NOT empty(balance))' in sub['text']:
                 S.probes['in_subquery_touching_balance'] += 1
             names = [c.name for c in desc]
+            if sub.get('order'):
+                S.probes['ordered_output_resorted'] += 1
+                rows = sorted(rows, key=lambda r_: r_[names.index('ln')])
             if any(r[names.index('pos')].units.number < 0 and r[names.index('pos')].cost is not None for r in rows):
                 S.probes['lots_reduced_in_selection'] += 1
             if W['ledger'].get('nometa') and any(canon(rows[i][names.index('pos')]) == canon(rows[i + 1][names.index('pos')])
